@@ -1,12 +1,12 @@
-import BeyondVerif.Lemmas.Heap
+import BeyondVerif.Lemmas.HeapDeep
 /-! Framing and freshness lemmas for the copy operations of the heap model. -/
 namespace BeyondVerif.Heap
 
 /-- what `copySVWith` needs from the way first-level values are copied -/
-structure CpOK (cp : Heap → Ref → Res Ref) : Prop where
-  pres : ∀ h r, Pres h (cp h r).1
+structure CpOK (cp : Heap → String → Ref → Res Ref) : Prop where
+  pres : ∀ h k r, Pres h (cp h k r).1
   /-- a returned address is new, or it is the address of a maneuver object (returned as it is) -/
-  fresh : ∀ h r r' x, (cp h r).2 = .ok r' → r' = .addr x → h.length ≤ x ∨ ∃ t, h[x]? = some (.man t)
+  fresh : ∀ h k r r' x, (cp h k r).2 = .ok r' → r' = .addr x → h.length ≤ x ∨ ∃ t, h[x]? = some (.man t)
 
 theorem copyItems_pres {cp} (hcp : CpOK cp) (h : Heap) (items : Items) : Pres h (copyItems cp h items).1 := by
   induction items generalizing h with
@@ -14,7 +14,7 @@ theorem copyItems_pres {cp} (hcp : CpOK cp) (h : Heap) (items : Items) : Pres h 
   | cons kv rest ih =>
     obtain ⟨k, v⟩ := kv
     unfold copyItems
-    have p1 := hcp.pres h v
+    have p1 := hcp.pres h k v
     split
     · rename_i h1 e he; rw [he] at p1; exact p1
     · rename_i h1 v' he
@@ -35,8 +35,8 @@ theorem copyItems_fresh {cp} (hcp : CpOK cp) (h : Heap) (items items' : Items) (
   | cons kv rest ih =>
     obtain ⟨k0, v⟩ := kv
     unfold copyItems at hr
-    have p1 := hcp.pres h v
-    have f1 := hcp.fresh h v
+    have p1 := hcp.pres h k0 v
+    have f1 := hcp.fresh h k0 v
     split at hr
     · simp at hr
     · rename_i h1 v' he
@@ -66,15 +66,13 @@ theorem copySVWith_pres {cp} (hcp : CpOK cp) (h : Heap) (a : Nat) : Pres h (copy
     · rename_i h1 e he; rw [he] at p; exact p
     · rename_i h1 items' he
       rw [he] at p
-      split
-      · exact p
-      · exact ((p.alloc _).alloc _).alloc _
+      exact ((p.alloc _).alloc _).alloc _
 
 /-- shape of a successful copy: three new cells — buffer, dict, object — after whatever the value copies allocated -/
 theorem copySVWith_spec {cp} (hcp : CpOK cp) (h h1 : Heap) (a n : Nat) (hr : copySVWith cp h a = (h1, .ok n)) :
     ∃ s items' h0, getSV h a = some s ∧ copyItems cp h s.items = (h0, .ok items') ∧ h.length ≤ h0.length ∧
       n = h0.length + 2 ∧
-      h1 = h0 ++ [.buf s.val] ++ [.dict items'] ++ [.sv s.orbit false h0.length (h0.length + 1)] := by
+      h1 = h0 ++ [.buf s.val] ++ [.dict items'] ++ [.sv s.orbit h0.length (h0.length + 1)] := by
   unfold copySVWith at hr
   split at hr
   · simp at hr
@@ -84,19 +82,17 @@ theorem copySVWith_spec {cp} (hcp : CpOK cp) (h h1 : Heap) (a n : Nat) (hr : cop
     · simp at hr
     · rename_i h0 items' he
       rw [he] at p
-      split at hr
-      · simp at hr
-      · simp [alloc] at hr
-        refine ⟨s, items', h0, hs, he, p.1, ?_, ?_⟩
-        · omega
-        · rw [← hr.1]; simp
+      simp [alloc] at hr
+      refine ⟨s, items', h0, hs, he, p.1, ?_, ?_⟩
+      · omega
+      · rw [← hr.1]; simp
 
 /-- reading back the object a successful copy returned -/
 theorem copySVWith_getSV {cp} (hcp : CpOK cp) (h h1 : Heap) (a n : Nat) (s' : SV)
     (hr : copySVWith cp h a = (h1, .ok n)) (hg : getSV h1 n = some s') :
     h.length ≤ s'.buf ∧ h.length ≤ s'.data ∧ h.length ≤ n ∧ s'.buf ≠ s'.data ∧
     ∃ s items' h0, getSV h a = some s ∧ copyItems cp h s.items = (h0, .ok items') ∧
-      s'.val = s.val ∧ s'.items = items' ∧ s'.orbit = s.orbit ∧ s'.owned = false := by
+      s'.val = s.val ∧ s'.items = items' ∧ s'.orbit = s.orbit := by
   obtain ⟨s, items', h0, hs, hc, hlen, hn, hh⟩ := copySVWith_spec hcp h h1 a n hr
   subst hn hh
   unfold getSV at hg
@@ -105,88 +101,104 @@ theorem copySVWith_getSV {cp} (hcp : CpOK cp) (h h1 : Heap) (a n : Nat) (s' : SV
   · rename_i f fr hf hfr
     simp at hg
     subst hg
-    exact ⟨by simp; omega, by simp; omega, by omega, by simp, s, items', h0, hs, hc, rfl, rfl, rfl, rfl⟩
+    exact ⟨by simp; omega, by simp; omega, by omega, by simp, s, items', h0, hs, hc, rfl, rfl, rfl⟩
   · simp at hg
 
 end BeyondVerif.Heap
 
 namespace BeyondVerif.Heap
 
-theorem copyRef_pres_step (fuel : Nat) (ih : CpOK (copyRef fuel)) (h : Heap) (r : Ref) :
-    Pres h (copyRef (fuel + 1) h r).1 := by
+/-- `deepcopy(v)`: the old heap is intact and the result is a new cell -/
+theorem deepVal_spec (h : Heap) (r : Ref) :
+    Pres h (deepVal h r).1 ∧ ∀ r' x, (deepVal h r).2 = .ok r' → r' = .addr x → h.length ≤ x := by
+  have inv0 : DeepInv (fun _ => True) h { h := h } := ⟨Pres.refl h, ClosedP.refl _ h, by simp⟩
+  have hd := deepRef_ok (P := fun _ => True) (h0 := h) (fun _ _ => trivial) deepFuel { h := h } r inv0
+  unfold deepVal
+  split
+  · rename_i st r' he
+    rw [he] at hd
+    exact ⟨hd.1.pres, fun r'' x h1 h2 => by simp at h1; subst h1; subst h2; exact hd.2 x rfl⟩
+  · rename_i st he
+    rw [he] at hd
+    exact ⟨hd.1.pres, fun r'' x h1 _ => by simp at h1⟩
+
+theorem copyRef_pres_step (fuel : Nat) (ih : CpOK (copyRef fuel)) (h : Heap) (k : String) (r : Ref) :
+    Pres h (copyRef (fuel + 1) h k r).1 := by
   unfold copyRef
   split
-  · rename_i a
-    split
-    · exact alloc_pres h _
-    · exact alloc_pres h _
-    · exact alloc_pres h _
-    · exact alloc_pres h _
-    · exact Pres.refl h
-    · exact Pres.refl h
-    · rename_i cv cfr orb ofr hc
+  · exact (deepVal_spec h r).1
+  · split
+    · rename_i a hcond
       split
+      · exact alloc_pres h _
+      · exact alloc_pres h _
+      · exact alloc_pres h _
+      · exact alloc_pres h _
       · exact Pres.refl h
-      · rename_i o ho
-        have p := copySVWith_pres ih h orb
+      · rename_i cv cfr orb ofr hc
+        split
+        · exact Pres.refl h
+        · rename_i o ho
+          have p := copySVWith_pres ih h orb
+          split
+          · rename_i h1 e he; rw [he] at p; exact p
+          · rename_i h1 o' he
+            rw [he] at p
+            split
+            · exact p
+            · rename_i s' hs'
+              obtain ⟨hb, hd, _, _, _⟩ := copySVWith_getSV ih h h1 orb o' s' he hs'
+              exact ((p.wr hb _).wr hd _).alloc _
+      · have p := copySVWith_pres ih h a
         split
         · rename_i h1 e he; rw [he] at p; exact p
-        · rename_i h1 o' he
-          rw [he] at p
-          split
-          · exact p
-          · rename_i s' hs'
-            obtain ⟨hb, hd, _, _, _⟩ := copySVWith_getSV ih h h1 orb o' s' he hs'
-            exact ((p.wr hb _).wr hd _).alloc _
-    · have p := copySVWith_pres ih h a
-      split
-      · rename_i h1 e he; rw [he] at p; exact p
-      · rename_i h1 n he; rw [he] at p; exact p
+        · rename_i h1 n he; rw [he] at p; exact p
+      · exact Pres.refl h
     · exact Pres.refl h
-  · exact Pres.refl h
 
-theorem copyRef_fresh_step (fuel : Nat) (ih : CpOK (copyRef fuel)) (h : Heap) (r r' : Ref) (x : Nat)
-    (hr : (copyRef (fuel + 1) h r).2 = .ok r') (hx : r' = .addr x) :
+theorem copyRef_fresh_step (fuel : Nat) (ih : CpOK (copyRef fuel)) (h : Heap) (k : String) (r r' : Ref) (x : Nat)
+    (hr : (copyRef (fuel + 1) h k r).2 = .ok r') (hx : r' = .addr x) :
     h.length ≤ x ∨ ∃ t, h[x]? = some (.man t) := by
   unfold copyRef at hr
   split at hr
-  · rename_i a
-    split at hr
-    · simp [alloc] at hr; subst hr; injection hx with hx; left; omega
-    · simp [alloc] at hr; subst hr; injection hx with hx; left; omega
-    · simp [alloc] at hr; subst hr; injection hx with hx; left; omega
-    · simp [alloc] at hr; subst hr; injection hx with hx; left; omega
-    · rename_i t hc
-      simp at hr; subst hr; injection hx with hx; subst hx; right; exact ⟨t, hc⟩
-    · simp at hr
-    · rename_i cv cfr orb ofr hc
+  · left; exact (deepVal_spec h r).2 r' x hr hx
+  · split at hr
+    · rename_i a hcond
       split at hr
-      · simp at hr
-      · rename_i o ho
-        have p := copySVWith_pres ih h orb
+      · simp [alloc] at hr; subst hr; injection hx with hx; left; omega
+      · simp [alloc] at hr; subst hr; injection hx with hx; left; omega
+      · simp [alloc] at hr; subst hr; injection hx with hx; left; omega
+      · simp [alloc] at hr; subst hr; injection hx with hx; left; omega
+      · rename_i t hc
+        simp at hr; subst hr; injection hx with hx; subst hx; right; exact ⟨t, hc⟩
+      · rename_i cv cfr orb ofr hc
         split at hr
         · simp at hr
-        · rename_i h1 o' he
-          rw [he] at p
+        · rename_i o ho
+          have p := copySVWith_pres ih h orb
           split at hr
           · simp at hr
-          · simp [alloc, write] at hr
-            subst hr; injection hx with hx; left
-            have hp : h.length ≤ h1.length := p.1
-            omega
-    · split at hr
+          · rename_i h1 o' he
+            rw [he] at p
+            split at hr
+            · simp at hr
+            · simp [alloc, write] at hr
+              subst hr; injection hx with hx; left
+              have hp : h.length ≤ h1.length := p.1
+              omega
+      · split at hr
+        · simp at hr
+        · rename_i h1 n he
+          simp at hr; subst hr; injection hx with hx; subst hx
+          obtain ⟨s, items', h0, _, _, hlen, hn, _⟩ := copySVWith_spec ih h h1 a n he
+          left; omega
       · simp at hr
-      · rename_i h1 n he
-        simp at hr; subst hr; injection hx with hx; subst hx
-        obtain ⟨s, items', h0, _, _, hlen, hn, _⟩ := copySVWith_spec ih h h1 a n he
-        left; omega
-    · simp at hr
-  · rename_i hna
-    simp at hr; subst hr; subst hx
-    exact absurd rfl (hna x)
+    · rename_i hna
+      simp at hr; subst hr; subst hx
+      exact absurd rfl (hna x)
 
 theorem copyRef_ok : ∀ fuel, CpOK (copyRef fuel)
-  | 0 => ⟨fun h _ => by unfold copyRef; exact Pres.refl h, fun h r r' x hr _ => by unfold copyRef at hr; simp at hr⟩
+  | 0 => ⟨fun h _ _ => by unfold copyRef; exact Pres.refl h, fun h k r r' x hr _ => by unfold copyRef at hr; simp at hr⟩
   | fuel + 1 => ⟨copyRef_pres_step fuel (copyRef_ok fuel), copyRef_fresh_step fuel (copyRef_ok fuel)⟩
 
 end BeyondVerif.Heap
